@@ -26,7 +26,8 @@ CFG = dict(
          "while a bump is in flight (it holds the wallet lock) the clock advances and ONE lock-taking request is issued in a goroutine: whether it has to wait is probed on the real wallet lock (TryLock/TryRLock); a waiting request must complete after the bump has finished (observed via resume), a non-waiting one is executed at once; every non-waiting call runs under a 6 s per-op watchdog (outcome `hang`, world abandoned, run stops after 8 hangs); thorough tier adds concurrent sign requests for one share under a timeout. Every op line is run on "
          "the real signer and on the Lean model (outcome + read-back of both records and the account are diffed). A case is distinct+non-trivial per "
          "(op kind, relation of the request to the stored record, well-formedness, outcome, pre-check result) key computed by the harness.",
-    trusted_base=["clock mock: BeaconNetwork wrapper overriding EstimatedCurrentSlot/EstimatedCurrentEpoch of networkconfig.TestNetwork's beacon network",
+    trusted_base=["the real beacon.Network clock functions are replaced by the harness' clock wrapper: a defect of EstimatedCurrentSlot itself is not seen by this check (campaign V, V-m02: missed)",
+                  "clock mock: BeaconNetwork wrapper overriding EstimatedCurrentSlot/EstimatedCurrentEpoch of networkconfig.TestNetwork's beacon network",
                   "harness/inpkg/ekm/zz_verif_ekm.go: decorator around the signer's Storage field (pause / fail at entry of the 6 slashing-record calls, delegates to the real storage)",
                   "far-future window of eth2-key-manager depends on the wall clock: generated values are either far below (checked valid with the real function at start-up) or 2^62 (checked invalid)",
                   "per-account lock of eth2-key-manager (sign = atomic check-then-update) and Badger durability"],
